@@ -286,13 +286,21 @@ def fp_cover(key, all_names):
                 r'impl < P : GroupParams > GroupElement for G < P >': ['double'], r'impl < P : GroupParams > G < P >': ['to_affine']}
         if ctx in pats and fn in pats[ctx]:
             names = [f'G1_{fn}', f'G2_{fn}']
+        elif ctx == 'impl < P : GroupParams > AffineG < P >' and fn in ('new', 'to_jacobian'):
+            names = [f'AffineG1_{fn}', f'AffineG2_{fn}']
     elif rel == 'pairings.rs':
         if ctx == 'impl Fq12' and fn in ('final_exponentiation_first_chunk', 'final_exponentiation_last_chunk', 'final_exp_last_chunk'):
             names = [f'Fq12_{fn}']
         elif ctx == 'impl G2' and fn in ('point_pi1', 'point_pi2', 'eval_g_tangent', 'eval_g_line', 'q_power_frobenius', 'g_line', 'g_tangent', 'miller_loop'):
             names = [f'G2m_{fn}']
-        elif ctx == 'impl G2Prepared' and fn == 'get_fq12':
-            names = ['G2Prepared_get_fq12']
+        elif ctx == 'impl Fq12' and fn in ('final_exponentiation', 'final_exp'):
+            names = [f'Fq12_{fn}']
+        elif ctx == 'impl G2Prepared' and fn in ('get_fq12', 'miller_loop'):
+            names = [f'G2Prepared_{fn}']
+        elif ctx == 'impl From < G2 > for G2Prepared' and fn == 'from':
+            names = ['G2Prepared_from']
+        elif ctx == '' and fn in ('pairing', 'fast_pairing', 'bit'):
+            names = [f'Pairings_{fn}']
     if not names or any(n not in all_names for n in names):
         return None
     return names
@@ -329,10 +337,9 @@ def run_sharded(cmd_of, lines, workdir, tag, nshards):
     if n == 0:
         return []
     k = max(1, min(nshards, (n + 39) // 40))
-    size = (n + k - 1) // k
     procs = []
     for i in range(k):
-        chunk = lines[i * size:(i + 1) * size]
+        chunk = lines[i::k]          # interleaved: expensive op kinds are generated in runs
         if not chunk:
             continue
         ip = os.path.join(workdir, f'{tag}.{i}.ops')
@@ -341,15 +348,15 @@ def run_sharded(cmd_of, lines, workdir, tag, nshards):
         fo = open(op, 'w')
         argv, stdin = cmd_of(ip)
         p = subprocess.Popen(argv, stdin=open(ip) if stdin else subprocess.DEVNULL, stdout=fo, stderr=subprocess.DEVNULL)
-        procs.append((p, op, len(chunk), fo))
-    out = []
-    for p, op, cnt, fo in procs:
+        procs.append((p, op, len(chunk), fo, i))
+    out = [None] * n
+    for p, op, cnt, fo, i in procs:
         p.wait()
         fo.close()
         got = open(op).read().splitlines()
         if len(got) < cnt:
             got += ['CRASH'] * (cnt - len(got))
-        out += got[:cnt]
+        out[i::k] = got[:cnt]
     return out
 
 
